@@ -362,6 +362,14 @@ pub fn seed_ops(name: &str) -> Vec<PuOp> {
             v
         }
         "S5" => base(cap_fees()),
+        "S6" => {
+            // a four-asset stableswap pool next to a constant-product pool sharing two of its denoms
+            let mut v = vec![mk_pool("cp", &["uom", "uusd"], &[6, 6], std_fees(), None), prov(OWNER, "o.cp", &[("uom", 10 * E6), ("uusd", 20 * E6)])];
+            v.push(mk_pool("s4", &["uusd", "uusdc", "uweth", "uom"], &[6, 6, 6, 6], std_fees(), Some(10)));
+            v.push(prov(OWNER, "o.s4", &[("uusd", 8 * E6), ("uusdc", 9 * E6), ("uweth", 10 * E6), ("uom", 11 * E6)]));
+            v.push(prov(A, "o.s4", &[("uusd", E6), ("uusdc", E6), ("uweth", E6), ("uom", E6)]));
+            v
+        }
         _ => panic!("MACHINERY: unknown PU seed {name}"),
     }
 }
@@ -487,6 +495,10 @@ pub fn enabled(w: &World, pre: &PuObs, alpha: Alpha) -> Vec<PuOp> {
         if full {
             ops.push(route(B, &[("uom", "uusd", "o.cp"), ("uusdc", "uusd", "o.ss")], 1000, None, None)); // non-consecutive: refused
         }
+    }
+    if has("o.cp") && has("o.s4") {
+        ops.push(route(B, &[("uom", "uusd", "o.cp"), ("uusd", "uweth", "o.s4")], 40_000, None, None));
+        ops.push(route(B, &[("uweth", "uom", "o.s4"), ("uom", "uusd", "o.cp")], 40_000, None, Some(A)));
     }
     ops.push(PuOp::Donate { u: B, denom: "uusd".into(), amt: 7 });
     if full {
